@@ -106,4 +106,129 @@ theorem recon_meta_eq (m : Split.Meta) (nch size : Nat) :
       | error x => simp
       | ok m3 => simp
 
+/-! ### round h (second part): `_prepare_files_NP24`, the window loop of `_process_NP24`, `NP2Reconstructor.process` /
+`get_params`, the bounds of `_get_chans` -/
+
+abbrev Ev := String × List Int
+
+/-- state of one iteration of `for sh in n_shanks` -/
+structure PrepSt where
+  chns : Option (List Nat) := none
+  letter : Option Int := none
+  dir : Bool := false
+  ap : Bool := false
+  lf : Bool := false
+  key : Option Int := none
+  deriving DecidableEq
+
+/-- meaning of the statements of one iteration: the channel list is "the positions where the shank column equals `v`, then
+the sync indices" (`np.r_[np.where(chn_info["shank"] == v)[0], sync]`); a file can only be opened in a directory that was
+made; the entry is registered once it has its channel list and both open files. -/
+def applyPrep (smap : List Nat) (nc nsync : Nat) (s : Option PrepSt) (e : Ev) : Option PrepSt :=
+  match s with
+  | none => none
+  | some s =>
+    match e with
+    | ("chns_where_then_sync", [v]) =>
+      if 0 ≤ v then some { s with chns := some (Split.apChans smap v.toNat ++ Split.syncIdx nc nsync) } else none
+    | ("folder_chr", [v]) => some { s with letter := some v }
+    | ("mkdir", []) => if s.letter.isSome then some { s with dir := true } else none
+    | ("open_ap", []) => if s.dir then some { s with ap := true } else none
+    | ("open_lf", []) => if s.dir then some { s with lf := true } else none
+    | ("register", [v]) => if s.chns.isSome ∧ s.ap ∧ s.lf then some { s with key := some v } else none
+    | _ => none
+
+/-- `_prepare_files_NP24`, one shank, as written in the source = `Split.prepShank`: channel list = the shank's channels in
+increasing order then the sync indices; folder letter `chr(97 + sh)`; both files opened (in the folder just made) before the
+entry is registered under the shank's own number. -/
+theorem prepare_eq (smap : List Nat) (sh nc nsync : Nat) :
+    (Src.C03.prep_shank sh).foldl (applyPrep smap nc nsync) (some {})
+      = some { chns := some (Split.prepShank smap sh nc nsync).chns,
+               letter := some ((Split.prepShank smap sh nc nsync).letter : Int),
+               dir := true, ap := true, lf := true,
+               key := some ((Split.prepShank smap sh nc nsync).key : Int) } := by
+  unfold Src.C03.prep_shank Split.prepShank Split.shankChans
+  simp [List.foldl, applyPrep]
+
+def cast2 (p : Nat × Nat) : Int × Int := ((p.1 : Int), (p.2 : Int))
+
+theorem loop_eq (ns w ov : Nat) (hov : ov < w) (fuel : Nat) :
+    ∀ (first : Nat) (iw : Int), ns - first < fuel →
+      Src.C03.wg_firstlast_loop1 ns w ov fuel first iw = (Window.firstlastAux ns w ov first).map cast2 := by
+  induction fuel with
+  | zero => intro first iw h; omega
+  | succ n ih =>
+    intro first iw hf
+    unfold Src.C03.wg_firstlast_loop1 Window.firstlastAux
+    by_cases h : first + w < ns
+    · have h2 : min ((first : Int) + (w : Int)) (ns : Int) = ((first + w : Nat) : Int) := by omega
+      have h1 : ¬ (((first + w : Nat) : Int) = (ns : Int)) := by omega
+      have h3 : (first : Int) + ((w : Int) - (ov : Int)) = ((first + (w - ov) : Nat) : Int) := by omega
+      simp only [h, hov, and_self, dite_true, List.map_cons, h2, h3, if_neg h1]
+      rw [ih (first + (w - ov)) _ (by omega)]
+      simp [cast2]
+    · have h1 : (min ((first : Int) + (w : Int)) (ns : Int) = (ns : Int)) := by omega
+      have h2 : ((min (first + w) ns : Nat) : Int) = (ns : Int) := by omega
+      simp [h, h1, cast2, h2]
+
+/-- `WindowGenerator.firstlast` as written in the source = `Window.firstlast`, the list `Split.keptAll` runs over. -/
+theorem firstlast_eq (ns w ov : Nat) (hov : ov < w) (fuel : Nat) (hf : ns < fuel) :
+    Src.C03.wg_firstlast ns w ov fuel = (Window.firstlast ns w ov).map cast2 := by
+  unfold Src.C03.wg_firstlast Window.firstlast
+  simp only [hov, if_true]
+  exact loop_eq ns w ov hov fuel 0 0 (by omega)
+
+/-- the event of a model step -/
+def encAp : Split.ApStep → Ev
+  | .wg ns w ov => ("wg", [(ns : Int), (w : Int), (ov : Int)])
+  | .readAp f l n => ("read_ap", [(f : Int), (l : Int), (n : Int)])
+  | .readSync f l c => ("read_sync", [(f : Int), (l : Int), (c : Int)])
+  | .keep r => ("ind2save_ap", [(r : Int)])
+  | .append => ("append_ap", [])
+  | .close => ("close_ap", [])
+  | .writeMeta => ("meta_ap", [])
+
+/-- **The AP half of `_process_NP24` as written in the source = `Split.apSteps`**, for every length, window above the overlap,
+column split and fuel: the window generator is built from (nsamples, samples_window, samples_overlap); per window of
+`firstlast`, in order, the AP columns `[0, napch)` and the sync columns `[idxsyncch, …)` of the same rows `[first, last)` are
+read, `_ind2save` is applied with ratio 1 and the result appended; after the last window the files are closed, then the
+metadata written. (Which rows `_ind2save` keeps: `ind2save_eq`.) -/
+theorem p24_windows_eq (ns w ov napch isync : Nat) (hov : ov < w) (fuel : Nat) (hf : ns < fuel) :
+    Src.C03.p24_windows ns w ov napch isync ns w ov fuel = (Split.apSteps ns w ov napch isync).map encAp := by
+  unfold Src.C03.p24_windows Split.apSteps
+  rw [firstlast_eq ns w ov hov fuel hf]
+  simp only [List.map_cons, List.map_append, List.map_flatMap, List.flatMap_map, encAp, List.map_nil]
+  congr 1
+
+def encRecon : Split.ReconStep → Ev
+  | .prepare => ("prepare", [])
+  | .params => ("params", [])
+  | .reconstruct => ("reconstruct", [])
+  | .writeMeta => ("meta", [])
+  | .compress => ("compress", [])
+
+/-- `NP2Reconstructor.process` as written in the source = `Split.reconSteps` (metadata after the file is complete). -/
+theorem recon_process_eq (compress : Bool) :
+    (if compress then Src.C03.recon_process_compress else Src.C03.recon_process_plain)
+      = (Split.reconSteps compress).map encRecon := by
+  cases compress <;> rfl
+
+/-- `get_params`: `self.nch = np.max(shank0 channel list) + 1` (the width of `Split.reconstruct`'s frames, `mx + 1`),
+`self.samples_window = 2 * 30000` = the generated constants' product (the driver's default reconstruction window). -/
+theorem recon_params_eq (mx : Nat) :
+    Src.C03.recon_nch mx = ((mx + 1 : Nat) : Int) ∧
+    Src.C03.recon_window = ((CONV_WINDOW_SECS * CONV_FS_AP : Nat) : Int) := by
+  refine ⟨by unfold Src.C03.recon_nch; omega, by decide⟩
+
+/-- `_get_chans`: `np.arange(int(sub[0]), int(sub[1]) + 1)` (arange start/stop as written in the source) = the model's
+reading of the token `a:b`. -/
+theorem get_chans_range_eq (a b : Nat) (ts : List Split.Grp) :
+    List.range' (Src.C03.get_chans_start a).toNat (Src.C03.get_chans_stop b - Src.C03.get_chans_start a).toNat
+        ++ Split.parseToks ts
+      = Split.parseToks (Split.Grp.range a b :: ts) := by
+  unfold Src.C03.get_chans_start Src.C03.get_chans_stop
+  have h : ((b : Int) + 1 - (a : Int)).toNat = b + 1 - a := by omega
+  simp [h, Split.parseToks]
+
+
 end IblVerif.Tie.C03
